@@ -17,18 +17,27 @@ TRUSTED = [
     "chains and the hand model with its own Fp12 arithmetic on fexp / fcyc / expsps lines (arbitrary field elements: 0, 1, -1, subfield elements, "
     "small orders, cyclotomic, order r, generic; arbitrary sparse forms) and compares with f^(c (p^12-1)/r) by plain square-and-multiply; the "
     "hypotheses of the theorems are evaluated on the parameters the running library reports",
-    "CLASS A for the loop structure, class C for the line functions: pp_mil_k12, pp_mil_lit_k12, pp_fin_k12_oatep and the maps pp_map_(sim_)oatep / "
-    "tatep / weilp_k12 are hand models (Model/PpMiller.lean) with the line functions as parameters.  Proved over an abstract Miller algebra "
-    "(Props/C04B.lean): the loops as coded (NAF digits, peeled first iteration, sign handling, inner loop over the pairs) compute the canonical "
-    "recurrence f <- f^2 l_{[n]Q,[n]Q}(P), n <- 2n; digit +-1: f <- f l_{[n]Q,+-Q}(P), n <- n +- 1 with the lines at the integer multiples, the running "
-    "points end at [s]Q for the integer s the digits denote, and the multi-pairing loop is the product of the single loops.  The driver runs the "
-    "models over E(Fp12) with the affine chord-and-tangent lines and compares the library's pairing value with the model's value after the final "
-    "exponentiation, value for value (ppm / ppms lines, every variant, multi-pairings with identities, all three curves)",
-    "CLASS C (no model; compared on the presented lines only): the line functions pp_dbl_k12_projc_lazyr, pp_add_k12_projc_lazyr, pp_dbl_lit_k12, "
-    "pp_add_lit_k12 (the comparison after the final exponentiation shows they agree with the affine lines up to factors the final exponentiation "
-    "removes, on the presented lines); the compressed squarings fp12_sqr_pck / fp12_back_cyc_sim inside fp12_exp_cyc_sps are abstracted to a "
-    "squaring / the identity on values (C10 proves the decompression)",
-    "trusted: tools/translate_pp.py (accepted fragment documented in the file; anything else is a translation failure = broken obligation), the "
+    "CLASS A, the Miller loops: pp_mil_k12, pp_mil_lit_k12, pp_fin_k12_oatep and the maps pp_map_(sim_)oatep / tatep / weilp_k12 are hand models "
+    "(Model/PpMiller.lean) with the line functions as parameters.  Proved over an abstract Miller algebra (Props/C04B.lean): the loops as coded "
+    "(NAF digits, peeled first iteration, sign handling, inner loop over the pairs) compute the canonical recurrence f <- f^2 l_{[n]Q,[n]Q}(P), "
+    "n <- 2n; digit +-1: f <- f l_{[n]Q,+-Q}(P), n <- n +- 1 with the lines at the integer multiples, the running points end at [s]Q for the integer s "
+    "the digits denote, and the multi-pairing loop is the product of the single loops.  The driver runs the models over E(Fp12) with the affine "
+    "chord-and-tangent lines and compares the library's pairing value with the model's value after the final exponentiation, value for value "
+    "(ppm / ppms lines, every variant, multi-pairings with identities, all three curves)",
+    "CLASS A, the line functions (general-b branch): pp_dbl_k12_projc_basic / _lazyr, pp_add_k12_projc_basic / _lazyr, pp_dbl_lit_k12, pp_add_lit_k12 "
+    "are TRANSLATED from the C text on every run (tools/translate_ppline.py -> Gen/PpLine.lean; the lazy-reduction primitives are field operations "
+    "on values).  Proved about the generated definitions over any field (Props/C04B.lean, *_line): the three written slots of the sparse element "
+    "are s x (the coefficients of the affine tangent / chord through the running point evaluated at the other argument) with s = -2YZ resp. "
+    "X - Z x2 (a factor in the field of the twist, removed by the final exponentiation), the fourth slot stays zero, and the updated running point "
+    "is the tangent / chord point of the curve law.  The driver executes the generated definitions with its own Fp2 arithmetic on the operands in "
+    "the representation the library received (lfn lines: model column, exact equality incl. the placement of the slots by twist type) and judges "
+    "the library's line value against the affine line over Fp12 up to a factor in a proper subfield (spec column)",
+    "CLASS C (no model; compared on the presented lines only): the b = 2 branch of pp_dbl_k12_projc_* (coordinate-level code with the non-residue -1 "
+    "built in; no configured curve takes it: the harness reports ep_curve_opt_b() and the driver falls back to the spec column alone), "
+    "pp_dbl_k12_basic / pp_add_k12_basic (EP_ADD = BASIC builds, not configured); which positions of Fp12 the symbolic slots are is part of the "
+    "executed model (placeSlots) but not of the theorems; the compressed squarings fp12_sqr_pck / fp12_back_cyc_sim inside fp12_exp_cyc_sps are "
+    "abstracted to a squaring / the identity on values (C10 proves the decompression); digit-level lazy reduction (C10's class C)",
+    "trusted: tools/translate_pp.py, tools/translate_ppline.py (accepted fragments documented in the files; anything else is a translation failure = broken obligation), the "
     "tower specification as the definition of Fp12, the tower-norm inverse of the driver is checked by a * a^-1 = 1 on every use",
 ]
 ASSUMPTIONS = ["the k = 8, 16, 18, 24 families are not covered (PARTIAL); BLS12-381 runs in the p381 configuration: the specification side is generic in the "
@@ -41,7 +50,7 @@ RULE = ("both pairing-friendly curves (+ BLS12-381), variants map / tatep / weil
         "final exponentiation of arbitrary field elements by class; sparse exponent forms of every shape; non-trivial = line with non-identity "
         "operands and ab != 0 mod r, or a final-exponentiation / Miller-model line on a non-zero, non-identity operand")
 
-GENERATED = ["pp"]
+GENERATED = ["pp", "ppline"]
 EXTRA_THEOREM_MODULES = ["RelicVerif.Props.C04B"]
 
 IDS = {"base": [23, 24]}
